@@ -41,7 +41,9 @@ class SetMutator(CollectionAttrMutator):
             raise ValueError(
                 f"Attempted to add an invalid item `{repr(item)}` to `{self.attr_spec.qualified_name}`. Expected item of type `{type_label(self.attr_spec.item_type)}`."
             )
-        if index is not MISSING and replace:
+        if index is not MISSING and replace and index is not item:
+            # (Nothing to discard if the item is replaced by itself; and then we
+            # avoid transiently removing it from the collection.)
             self.collection.discard(index)
         self.collection.add(item)
 
